@@ -308,6 +308,12 @@ func init() {
 	for _, id := range []string{"C04", "C05", "C06", "C07"} {
 		specs[id] = alloc(id)
 	}
+	netAssume := []string{"simbuild's instrumentation preserves semantics (repository tests pass on the instrumented copy)", "sockets, clients, relays, clock and file system are simulated stubs (see components)", "process crash is simulated (tasks abandoned at a statement boundary, sqlite handles released); power loss is not", "an unbound listener always learns the receiving interface index (Linux with FlagInterface)"}
+	net := func(id string, quick, thorough int, rule string, scen ...string) *spec {
+		return &spec{ID: id, Engine: "netsim", Scenarios: scen, Quick: quick, Thorough: thorough, Batch: 1, KnownPct: 10, TimeoutS: 60, Rule: rule, Assume: netAssume}
+	}
+	specs["C02"] = net("C02", 2400, 200000, "one case = one simulated server lifetime: the real server (Serve, HandleMsg4, plugin chain with the range plugin, sqlite lease store) with 1..16 DHCPv4 clients sending 2..40 DISCOVER/REQUEST messages (bursts, duplicates, drops, delays), 0..6 crash/restarts on the same database, schedule and faults drawn from the run's tape; distinct = distinct (context-switch hash, reply-sequence hash); non-trivial = at least 2 datagrams delivered to the server", "lease4", "lease4", "lease4-crash", "lease4-sqlfault")
+	specs["C03"] = net("C03", 2400, 200000, "as C02 but crash-heavy: 1..6 crashes placed at statement boundaries (half inside the range plugin / start-up), plus restarts of the range plugin on copies of the database taken at drawn instants; the database is read back by an independent connection at every crash and at the end", "lease4-crash", "lease4-crash", "lease4", "lease4-sqlfault")
 }
 
 // ---------------------------------------------------------------------------
